@@ -1,4 +1,5 @@
 From Coq Require Import NArith List Bool Arith.
+From Coq Require Export String.   (* generated case files write strings as (lit "...") *)
 From PS Require Import Base.Chars Base.Outcome Model.History Spec.Frame Run.Bits.
 Import ListNotations.
 Open Scope N_scope.
